@@ -1223,6 +1223,22 @@ func (g *Gen) genC18() {
 		if span < 0 {
 			span = 0
 		}
+		// spans whose end does not fit in the 16-bit offsets (the quantifier takes offsets up to 65,535-len AND span
+		// lengths up to len+k): they cannot hold the URI inside any legal buffer and must be refused, never crash
+		wraps := false
+		if r.P(12) {
+			switch r.N(4) {
+			case 0:
+				off, span = 65535-len(uri), len(uri)+1+r.N(3)
+			case 1:
+				off, span = 65536-len(uri)+r.N(len(uri)), len(uri)
+			case 2:
+				off, span = 1+r.N(70), 65535
+			default:
+				off, span = 30000+r.N(35535), 36000+r.N(29535)
+			}
+			wraps = off+span >= 65536
+		}
 		line := fmt.Sprintf("uri | B %s | P %d 0 0 | O | V | A %d %d | O | A %d %d | O | T | O", hx(uri), len(uri), off, span, r.N(100), len(uri)+1)
 		g.add(Case{Prop: "C18", Desc: "relocate-views", Lines: []string{line}, Check: func(out []string) string {
 			return protect(func() string {
@@ -1236,7 +1252,14 @@ func (g *Gen) genC18() {
 					return []sipsp.PField{x.Scheme, x.User, x.Pass, x.Host, x.Port, x.Params, x.Headers}
 				}
 				ok := u.AdjustOffs(sipsp.PField{Offs: sipsp.OffsT(off), Len: sipsp.OffsT(span)})
-				if span >= len(uri) {
+				if wraps {
+					if ok {
+						return fmt.Sprintf("relocating %q onto the span (%d,+%d), which ends past the 16-bit range, accepted: %+v", uri, off, span, u)
+					}
+					if u != orig {
+						return "refused relocation (span past the 16-bit range) modified the structure"
+					}
+				} else if span >= len(uri) {
 					if !ok {
 						return fmt.Sprintf("relocating %q onto a span of %d >= %d bytes refused", uri, span, len(uri))
 					}
